@@ -46,6 +46,8 @@ structure Init (s0 : St) : Prop where
   hist : HistOk s0.hist
   cur : ∀ c, s0.claim = some c → ∃ t, s0.hist = c :: t
   bound : ∀ n, boundAt s0 n → acked s0 n
+  xcur : ∀ n, s0.xrs n ∈ s0.xhist n
+  xfor : ∀ n, foreignAt s0 n → ∀ ox ∈ s0.xhist n, ∃ x, ox = some x ∧ x.cref = some .other
 
 theorem Init.inv {s0 : St} (h : Init s0) : Inv (acked s0) s0 where
   rvLt := h.rvLt
@@ -56,15 +58,20 @@ theorem Init.inv {s0 : St} (h : Init s0) : Inv (acked s0) s0 where
   ackHist := fun n hn => by rw [h.trace] at hn; cases hn
   p0 := fun _ hn => hn
   trace := by rw [h.trace]; trivial
+  xcur := h.xcur
+  xfor := h.xfor
 
 /-- The usual start: the claim has a single stored version. -/
 theorem Init.single {s0 : St} {c : Claim} (hc : s0.claim = some c) (hh : s0.hist = [c]) (hrv : c.rv < s0.nextRv)
-    (ht : s0.trace = []) (hb : ∀ n, boundAt s0 n → c.ref = some n) : Init s0 where
+    (ht : s0.trace = []) (hb : ∀ n, boundAt s0 n → c.ref = some n) (hx : ∀ n, s0.xhist n = [s0.xrs n]) : Init s0 where
   trace := ht
   rvLt := fun v hv => by rw [hh] at hv; simp at hv; subst hv; exact hrv
   hist := by rw [hh]; exact List.pairwise_singleton _ _
   cur := fun c' hc' => by rw [hc] at hc'; cases hc'; exact ⟨[], hh⟩
   bound := fun n hn => ⟨c, by rw [hh]; simp, hb n hn⟩
+  xcur := fun n => by rw [hx n]; simp
+  xfor := fun n ⟨x, hxn, hc⟩ ox hox => by
+    rw [hx n] at hox; simp at hox; subst hox; exact ⟨x, hxn, hc⟩
 
 /-! ### counting bound XRs -/
 
